@@ -376,6 +376,7 @@ def build() -> Check:
             "seeded by VERIF_SEED. After every k-th read() (64 samples per case) the deep size of the reader must stay below a bound "
             "that does not depend on the bytes fed: HDLC 3*2047+4096+2*chunk, P1 4*8192+4096+2*chunk. Non-trivial = bytes fed >= 16 x "
             "bound; distinct = (reader, configuration, pattern, chunk size)."
+            " big-then-small: every pattern as ONE 512 KiB chunk followed by 48 chunks of <= 64 bytes (every other one stripped of flags / line ends), deep size after every small chunk <= constant + 2 x 64. process-growth: all-different frames / readouts / '/' lines / identification lines and random noise, 448 KiB in 64- and 4096-byte chunks under tracemalloc; growth of the process's traced memory (after gc) between 25 % and 100 % of the stream <= the same bound."
         ),
         assumptions=[
             "Deep size = sum of sys.getsizeof over objects reachable from the reader via gc.get_referents, excluding classes, modules and functions.",
